@@ -17,3 +17,4 @@ def rules(ctx):
     S.root_pair_rules(ctx)
     S.create_only_when_empty_rules(ctx)
     S.open_reads_within_length_rules(ctx)
+    S.own_growth_rules(ctx)
